@@ -56,10 +56,19 @@ KB58Decode(s) ==
 (* Text forms                                                                *)
 (* ------------------------------------------------------------------------ *)
 HexDigit(n) == IF n < 10 THEN 48 + n ELSE 87 + n                 \* lower case
-RECURSIVE HexStr(_)
-HexStr(b) == IF b = <<>> THEN <<>> ELSE <<HexDigit(b[1] \div 16), HexDigit(b[1] % 16)>> \o HexStr(Tail(b))
-DecStr(b) == LET ds == Rev(ConvBEtoLE(b, 256, 10)) IN
+HexStr(b) == [i \in 1..(2 * Len(b)) |-> IF i % 2 = 1 THEN HexDigit(b[(i + 1) \div 2] \div 16) ELSE HexDigit(b[i \div 2] % 16)]
+\* decimal digits of a big-endian byte string.  The number is converted to base 10^4 first (four decimal digits per
+\* division pass: shallow recursion, TLC's evaluation depth is limited) and every base-10^4 digit is then spelled out.
+Pow10(j) == IF j = 0 THEN 1 ELSE IF j = 1 THEN 10 ELSE IF j = 2 THEN 100 ELSE 1000
+DecDigitsLE(b) == LET q == ConvBEtoLE(b, 256, 10000) IN
+                  Trim([i \in 1..(4 * Len(q)) |-> (q[(i + 3) \div 4] \div Pow10((i - 1) % 4)) % 10])
+DecStr(b) == LET ds == Rev(DecDigitsLE(b)) IN
              IF ds = <<>> THEN <<48>> ELSE [i \in 1..Len(ds) |-> 48 + ds[i]]
+\* and back: decimal digit values (most significant first) -> minimal big-endian bytes
+DecToBytes(ds) == LET pad == (4 - (Len(ds) % 4)) % 4
+                      e   == Rep(0, pad) \o ds
+                      g   == [j \in 1..(Len(e) \div 4) |-> 1000 * e[4 * j - 3] + 100 * e[4 * j - 2] + 10 * e[4 * j - 1] + e[4 * j]]
+                  IN Rev(ConvBEtoLE(g, 10000, 256))
 
 (* ------------------------------------------------------------------------ *)
 (* Reference table of networks and version bytes                             *)
